@@ -5,9 +5,22 @@ package main
 //	close <n> <errmask> <seed>   real app with n closer components (delay 0-30 ms, error flag), Run, App.Close();
 //	                             counters and completion flags sampled IMMEDIATELY after Close returns
 //	                             observation  calls=1,1,… done=1,1,…   | hang | panic
+//	closez <n> <errmask> <zmask> <seed>
+//	                             as `close`, but closer i (bit i of zmask; at most 8 bits) is a component of a ZERO-SIZE struct
+//	                             type (a distinct field-less type per such closer: a stateless closer that releases a process-wide
+//	                             resource). All such values share one address, so the container must not take the address of a
+//	                             component for its identity. Their calls/returns are counted per TYPE in package-level counters.
+//	                             observation as `close`
 //	scan <n> <failmask> <seed>   real start with n components and a user DefinitionRegistryPostProcessor that fails
 //	                             for the components in failmask, all at the same moment (barrier)
 //	                             observation  errs=<number of component names in Run's error> | race | hang | panic
+//	fstart <n> <kinds> <seed>    the FIRST container start of a fresh process: one dependency plus n components that carry
+//	                             injection/configuration tags (kinds = bit set of the component shapes used: 0 wire by pointer +
+//	                             optional wire, 1 value literals/placeholders with defaults, 2 logger, 3 wire by interface + slice);
+//	                             many components share the same tag TEXT, so anything the scan derives from a tag text and shares
+//	                             between components is written for the first time by several scan goroutines at once. Always run
+//	                             in its own child process (process-wide state is cold exactly once per process).
+//	                             observation  errs=0 | errs=? (start failed) | race | hang | panic
 //	lofn <digits>                forced schedule of two LoadOrStoreFn callers (value function blocks on a channel)
 //	                             observation  t0=<v>,<loaded> t1=<v>,<loaded>
 //	range <nk> <a>               forced schedule: after a visits of a Range another goroutine deletes every key
@@ -21,7 +34,8 @@ package main
 // observation `race` and the oracle verdict `FAIL race <where>`.
 //
 // Oracles (on the real code's own observation, independent of the model):
-//   close: every counter = 1 and every completion flag set at return        (close-not-all-once, close-hang)
+//   close/closez: every counter = 1 and every completion flag set at return (close-not-all-once, close-hang)
+//   fstart: no race report, no hang/panic of the start                      (race, fstart-hang, fstart-panic)
 //   scan:  Run fails iff some scanner failed, and its error names exactly the failing components (scan-errs-lost), no race
 //   lofn:  not both callers loaded=false                                    (lofn-two-winners)
 //   range/hist: linearizable w.r.t. the sequential map/set; a history that is only explained when Range results
@@ -146,24 +160,118 @@ var concHangs int
 // ---------------------------------------------------------------- close
 
 func runClose(n int, mask, seed uint64, maxDelayMs int) hx.Case {
+	return runCloseZ(n, mask, 0, seed, maxDelayMs)
+}
+
+// ---- zero-size closers: values of field-less struct types cannot carry state (and all share one address), so the delay,
+// the error flag and the call/return counters live in package-level tables indexed by the TYPE.
+
+const zcMax = 8
+
+var zcTab struct {
+	delay       [zcMax]time.Duration
+	fail        [zcMax]bool
+	calls, done [zcMax]int32
+}
+
+func zcClose(i int) error {
+	atomic.AddInt32(&zcTab.calls[i], 1)
+	if d := zcTab.delay[i]; d > 0 {
+		time.Sleep(d)
+	}
+	atomic.AddInt32(&zcTab.done[i], 1)
+	if zcTab.fail[i] {
+		return errors.New("close failed")
+	}
+	return nil
+}
+
+type (
+	vZC0 struct{}
+	vZC1 struct{}
+	vZC2 struct{}
+	vZC3 struct{}
+	vZC4 struct{}
+	vZC5 struct{}
+	vZC6 struct{}
+	vZC7 struct{}
+)
+
+func (*vZC0) Close() error { return zcClose(0) }
+func (*vZC1) Close() error { return zcClose(1) }
+func (*vZC2) Close() error { return zcClose(2) }
+func (*vZC3) Close() error { return zcClose(3) }
+func (*vZC4) Close() error { return zcClose(4) }
+func (*vZC5) Close() error { return zcClose(5) }
+func (*vZC6) Close() error { return zcClose(6) }
+func (*vZC7) Close() error { return zcClose(7) }
+
+// half of them name themselves, the others are named by the container after their type
+func (*vZC0) Naming() string { return "vzc0" }
+func (*vZC2) Naming() string { return "vzc2" }
+func (*vZC4) Naming() string { return "vzc4" }
+func (*vZC6) Naming() string { return "vzc6" }
+
+func newZC(i int) any {
+	switch i {
+	case 0:
+		return &vZC0{}
+	case 1:
+		return &vZC1{}
+	case 2:
+		return &vZC2{}
+	case 3:
+		return &vZC3{}
+	case 4:
+		return &vZC4{}
+	case 5:
+		return &vZC5{}
+	case 6:
+		return &vZC6{}
+	}
+	return &vZC7{}
+}
+
+// runCloseZ: n closer components; closer i is of a zero-size type iff bit i of zmask (only the first zcMax set bits count).
+func runCloseZ(n int, mask, zmask, seed uint64, maxDelayMs int) hx.Case {
 	concQuiet()
 	scn := fmt.Sprintf("close %d %d %d", n, mask, seed)
+	if zmask != 0 {
+		scn = fmt.Sprintf("closez %d %d %d %d", n, mask, zmask, seed)
+	}
 	rng := hx.NewRng(seed ^ 0xC105E)
-	closers := make([]*vCloser, n)
+	closers := make([]*vCloser, n) // nil for the zero-size ones
+	ztype := make([]int, n)        // index of the zero-size type, -1 for an ordinary closer
 	comps := make([]any, 0, n)
-	nfail := 0
+	nfail, nz := 0, 0
+	zcTab.delay, zcTab.fail = [zcMax]time.Duration{}, [zcMax]bool{}
+	for i := 0; i < zcMax; i++ {
+		atomic.StoreInt32(&zcTab.calls[i], 0)
+		atomic.StoreInt32(&zcTab.done[i], 0)
+	}
 	for i := 0; i < n; i++ {
 		d := time.Duration(0)
 		if maxDelayMs > 0 && rng.P(1, 2) {
 			d = time.Duration(rng.Intn(maxDelayMs*1000+1)) * time.Microsecond
 		}
-		closers[i] = &vCloser{N: fmt.Sprintf("vc%03d", i), delay: d, fail: bit(mask, i)}
-		if closers[i].fail {
+		if bit(mask, i) {
 			nfail++
 		}
+		if bit(zmask, i) && nz < zcMax {
+			ztype[i] = nz
+			zcTab.delay[nz], zcTab.fail[nz] = d, bit(mask, i)
+			comps = append(comps, newZC(nz))
+			nz++
+			continue
+		}
+		ztype[i] = -1
+		closers[i] = &vCloser{N: fmt.Sprintf("vc%03d", i), delay: d, fail: bit(mask, i)}
 		comps = append(comps, closers[i])
 	}
 	tags := []string{"close", fmt.Sprintf("closers=%s", bucket(n)), fmt.Sprintf("failing=%s", bucket(nfail))}
+	if zmask != 0 {
+		tags = append(tags, fmt.Sprintf("zero-size-closers=%s", bucket(nz)))
+	}
 	if n == 0 {
 		tags = append(tags, "trivial")
 	}
@@ -177,6 +285,11 @@ func runClose(n int, mask, seed uint64, maxDelayMs int) hx.Case {
 	out := withWatchdog(10*time.Second, func() {
 		a.Close()
 		for i, c := range closers { // sampled immediately after Close returned
+			if c == nil {
+				calls[i] = atomic.LoadInt32(&zcTab.calls[ztype[i]])
+				done[i] = atomic.LoadInt32(&zcTab.done[ztype[i]])
+				continue
+			}
 			calls[i] = atomic.LoadInt32(&c.calls)
 			done[i] = atomic.LoadInt32(&c.done)
 		}
@@ -190,7 +303,11 @@ func runClose(n int, mask, seed uint64, maxDelayMs int) hx.Case {
 		cs = append(cs, strconv.Itoa(int(calls[i])))
 		ds = append(ds, strconv.Itoa(int(done[i])))
 		if (calls[i] != 1 || done[i] != 1) && oracle == "" {
-			oracle = fmt.Sprintf("FAIL close-not-all-once closer %d of %d: calls=%d returned=%d when App.Close returned", i, n, calls[i], done[i])
+			what := ""
+			if ztype[i] >= 0 {
+				what = fmt.Sprintf(" (zero-size type vZC%d)", ztype[i])
+			}
+			oracle = fmt.Sprintf("FAIL close-not-all-once closer %d of %d%s: calls=%d returned=%d when App.Close returned", i, n, what, calls[i], done[i])
 		}
 	}
 	return hx.Case{Scn: scn, Obs: "calls=" + strings.Join(cs, ",") + " done=" + strings.Join(ds, ","), Oracle: oracle, Tags: tags}
@@ -216,6 +333,9 @@ func closeCorpus(w *hx.Writer) {
 	w.Put(runClose(1, 1, 2, 5))
 	w.Put(runClose(3, 2, 3, 30))     // the failing one in the middle, slow ones around
 	w.Put(runClose(16, 0xFFFF, 4, 5)) // everyone fails
+	w.Put(runCloseZ(3, 0, 7, 5, 5))      // three stateless closers of three field-less types (one address, three components)
+	w.Put(runCloseZ(6, 0x24, 0x2A, 6, 30)) // zero-size and ordinary closers mixed, one failing of each sort
+	w.Put(runCloseZ(8, 0xFF, 0xFF, 7, 0)) // eight zero-size closers, all failing, no delays
 }
 
 func closeGen(rng *hx.Rng, n int, tier string, w *hx.Writer) {
@@ -233,7 +353,24 @@ func closeGen(rng *hx.Rng, n int, tier string, w *hx.Writer) {
 		default:
 			mask = r.U64() & ((1 << uint(nc)) - 1)
 		}
-		w.Put(runClose(nc, mask, r.U64()%1000000, 30))
+		sd := r.U64() % 1000000
+		// a third of the cases: some of the closers are stateless values of distinct zero-size types
+		var zmask uint64
+		if nc > 0 && r.P(1, 3) {
+			k := 2 + r.Intn(zcMax-1)
+			if r.P(1, 6) {
+				k = 1
+			}
+			if k > nc {
+				k = nc
+			}
+			for _, j := range r.Perm(nc)[:k] {
+				if j < 64 {
+					zmask |= 1 << uint(j)
+				}
+			}
+		}
+		w.Put(runCloseZ(nc, mask, zmask, sd, 30))
 	}
 }
 
@@ -301,6 +438,112 @@ func runScan(n int, mask, seed uint64) hx.Case {
 	return c
 }
 
+// ---------------------------------------------------------------- fstart: the first start of a process, tag-carrying components
+
+type vTagIface interface{ TagDepMark() }
+
+type vTagDep struct{ N string }
+
+func (d *vTagDep) Naming() string { return d.N }
+func (d *vTagDep) TagDepMark()    {}
+
+// kind 0: wire by pointer type, required (default) and optional
+type vTagW struct {
+	N   string
+	Dep *vTagDep `wire:""`
+	Opt *vTagDep `wire:",required=false"`
+}
+
+func (c *vTagW) Naming() string { return c.N }
+
+// kind 1: configuration values: a literal and placeholders with defaults (no configuration is loaded)
+type vTagV struct {
+	N string
+	V int    `value:"7"`
+	S string `value:"${vk.name:dflt}"`
+	P string `prop:"vk.other:x"`
+}
+
+func (c *vTagV) Naming() string { return c.N }
+
+// kind 2: logger
+type vTagL struct {
+	N   string
+	Log syslog.Logger `logger:""`
+}
+
+func (c *vTagL) Naming() string { return c.N }
+
+// kind 3: wire by interface type, single and slice
+type vTagI struct {
+	N   string
+	Dep vTagIface   `wire:""`
+	All []vTagIface `wire:""`
+}
+
+func (c *vTagI) Naming() string { return c.N }
+
+const fstartKinds = 4
+
+// runFstart: one dependency and n tag-carrying components; component i has one of the shapes enabled in `kinds`
+// (chosen from the seed). Meant to be the first container start of its process (see runInChild / concGen).
+func runFstart(n int, kinds, seed uint64) hx.Case {
+	concQuiet()
+	scn := fmt.Sprintf("fstart %d %d %d", n, kinds, seed)
+	var enabled []int
+	for k := 0; k < fstartKinds; k++ {
+		if bit(kinds, k) {
+			enabled = append(enabled, k)
+		}
+	}
+	if len(enabled) == 0 {
+		enabled = []int{0}
+	}
+	rng := hx.NewRng(seed ^ 0xF57A27)
+	comps := []any{&vTagDep{N: "vtdep"}}
+	used := map[int]int{}
+	for i := 0; i < n; i++ {
+		name := fmt.Sprintf("vt%03d", i)
+		k := enabled[rng.Intn(len(enabled))]
+		used[k]++
+		switch k {
+		case 0:
+			comps = append(comps, &vTagW{N: name})
+		case 1:
+			comps = append(comps, &vTagV{N: name})
+		case 2:
+			comps = append(comps, &vTagL{N: name})
+		default:
+			comps = append(comps, &vTagI{N: name})
+		}
+	}
+	shared := 0 // largest number of components that share one shape (= one set of tag texts)
+	for _, c := range used {
+		if c > shared {
+			shared = c
+		}
+	}
+	tags := []string{"fstart", fmt.Sprintf("components=%s", bucket(n)), fmt.Sprintf("same-tag-text=%s", bucket(shared)), fmt.Sprintf("shapes=%d", len(used))}
+	if shared < 2 {
+		tags = append(tags, "trivial")
+	}
+	a := app.NewApp()
+	var err error
+	if out := withWatchdog(20*time.Second, func() { err = a.Run(app.SetComponents(comps...), app.SetConfigLoader()) }); out != "" {
+		return hx.Case{Scn: scn, Obs: out, Oracle: "FAIL fstart-" + out + " the first start of the process did not return normally", Tags: tags}
+	}
+	c := hx.Case{Scn: scn, Obs: "errs=0", Tags: tags}
+	if err != nil {
+		// not a statement of C20: reported through the comparison with the model (no scanner fails in this scenario)
+		c.Obs = "errs=?"
+		return c
+	}
+	if out := withWatchdog(10*time.Second, func() { a.Close() }); out != "" {
+		c.Oracle = "FAIL close-" + out + " after a clean start"
+	}
+	return c
+}
+
 // ---------------------------------------------------------------- child process for the race-enabled starts
 
 func concChildReplay(scn string, w *hx.Writer) {
@@ -321,8 +564,12 @@ func runLine(scn string, closeDelayMs int) hx.Case {
 	switch {
 	case len(f) == 4 && f[0] == "close":
 		return runClose(int(num(1)), num(2), num(3), closeDelayMs)
+	case len(f) == 5 && f[0] == "closez":
+		return runCloseZ(int(num(1)), num(2), num(3), num(4), closeDelayMs)
 	case len(f) == 4 && f[0] == "scan":
 		return runScan(int(num(1)), num(2), num(3))
+	case len(f) == 4 && f[0] == "fstart":
+		return runFstart(int(num(1)), num(2), num(3))
 	case len(f) == 2 && f[0] == "lofn":
 		return runLofn(f[1])
 	case len(f) == 3 && f[0] == "range":
@@ -906,6 +1153,9 @@ func concCorpus(w *hx.Writer) {
 	w.Put(runLofn("111100"))
 	// all scanners of a start fail together; every closer fails
 	runInChild([]string{"scan 2 3 1", "scan 12 4095 2", "scan 40 31 3", "close 8 255 4", "close 0 0 5"}, w)
+	// the first start of a process: 32 components that all carry the same tag texts; every shape at once
+	runInChild([]string{"fstart 32 1 1"}, w)
+	runInChild([]string{"fstart 40 15 2"}, w)
 }
 
 func concGen(rng *hx.Rng, n int, tier string, w *hx.Writer) {
@@ -937,6 +1187,24 @@ func concGen(rng *hx.Rng, n int, tier string, w *hx.Writer) {
 		lines = append(lines, fmt.Sprintf("scan %d %d %d", nc, mask, r.U64()%1000000))
 	}
 	runInChild(lines, w)
+	// (a') first starts: each in its own fresh child process (what a start derives from tag texts, type names, … and keeps
+	// process-wide is cold only once per process)
+	firsts := 4
+	if tier == "thorough" {
+		firsts = 24
+	}
+	for i := 0; i < firsts; i++ {
+		r := rng.Fork()
+		nc := 8 + r.Intn(41)
+		if r.P(1, 8) {
+			nc = 2 + r.Intn(6)
+		}
+		kinds := uint64(1 + r.Intn(1<<fstartKinds-1))
+		if r.P(1, 2) {
+			kinds = 1 << uint(r.Intn(fstartKinds)) // one shape only: every component has the same tag texts
+		}
+		runInChild([]string{fmt.Sprintf("fstart %d %d %d", nc, kinds, r.U64()%1000000)}, w)
+	}
 	// (c) forced schedules
 	forced := n / 20
 	if forced > 40 {
@@ -959,7 +1227,7 @@ func concGen(rng *hx.Rng, n int, tier string, w *hx.Writer) {
 
 func concReplay(scn string, w *hx.Writer) {
 	f := strings.Fields(scn)
-	if len(f) > 0 && f[0] == "scan" && raceEnabled {
+	if len(f) > 0 && (f[0] == "scan" || f[0] == "fstart") && raceEnabled {
 		runInChild([]string{scn}, w)
 		return
 	}
